@@ -303,8 +303,8 @@ fn field_wise_line(r: &mut Rng) -> String {
             }
         }
         1 => {
-            let xi = x.trim().parse::<f64>().map_or(0, |v| v as i64);
-            let yi = y.trim().parse::<f64>().map_or(0, |v| v as i64);
+            let xi = x.trim().parse::<f64>().map_or(0, |v| v.clamp(-200_000.0, 200_000.0) as i64);
+            let yi = y.trim().parse::<f64>().map_or(0, |v| v.clamp(-200_000.0, 200_000.0) as i64);
             line.push(',');
             line.push_str(&path_str(r, xi, yi));
             if r.chance(19, 20) {
